@@ -7,7 +7,7 @@ from harness import core, scen, stackdrv as SDV, stateful
 
 LEVEL = ("Lean theorems c09_* about the TimedStore / timer invariant of the stack model for every event list + lock-step "
          "correspondence on adversarial schedules + exact reference trace for expiry notifications")
-W = {"offer": 7, "stopoffer": 2, "reboot": 1.5, "sub": 6, "stopsub": 2, "subreboot": 1}
+W = {"offer": 7, "stopoffer": 2, "reboot": 1.5, "sub": 6, "stopsub": 2, "subreboot": 1, "nak": 0.7}
 SVC = C.Service(0x1111, 1, 1, 1, eventgroups=frozenset({5, 6}))
 
 
@@ -50,6 +50,7 @@ def oracle(sc, res, rep, case):
     pending = []  # expected immediate notifications of the last input: list of (kind, keytext)
     have_inst = bool(sc.services)
     declared = set(SVC.eventgroups)
+    nak = set()
 
     def key_text(key):
         if key[0] == "svc":
@@ -72,6 +73,9 @@ def oracle(sc, res, rep, case):
                 bad("C09:missing-notification", f"expected {pending} right after the previous input")
                 pending = []
             overdue(t)
+            if info[0] == "setNak":
+                nak = set(info[2])      # eventgroups the listener refuses from now on (a refused Subscribe stores nothing)
+                continue
             if info[0] != "dgram":
                 continue
             _, peer, mc, flag, sid, uni, entries = info
@@ -106,6 +110,9 @@ def oracle(sc, res, rep, case):
                             pending.append(("unsubscribed", key_text(key)))
                     else:
                         if key not in store:
+                            if egid in nak:
+                                rep.dist["C09:refused-subscribes"] += 1
+                                continue
                             pending.append(("subscribed", key_text(key)))
                         store.pop(key, None)
                         store[key] = None if ttl == 0xFFFFFF else t + ttl * 1000
